@@ -147,10 +147,34 @@ func DrawCmpRange(t *rapid.T, e eco.Eco, base, l string, maxGroups, maxCmps int)
 	if len(sx.Or) > 0 && maxGroups > 1 {
 		ng = rapid.IntRange(1, maxGroups).Draw(t, l+"NG")
 	}
+	// now and then a long list: many OR groups or many comparators in one group (code may switch to another
+	// algorithm - an index, a set, a binary search - above some length)
+	longGroups, longCmps := false, false
+	if maxGroups > 1 || maxCmps > 1 {
+		switch rapid.IntRange(0, 39).Draw(t, l+"LONG") { // (middle values: rapid favours the ends of a range)
+		case 17:
+			longGroups = len(sx.Or) > 0 && maxGroups > 1
+		case 23:
+			longCmps = maxCmps > 1
+		}
+	}
+	if longGroups {
+		ng = rapid.IntRange(5, 14).Draw(t, l+"NGL")
+	}
+	// half of the long lists use one operator throughout (nine exclusions, nine lower bounds, ...)
+	uniformOp := ""
+	if (longGroups || longCmps) && Chance(t, l+"UNI", 1, 2) {
+		uniformOp = Pick(t, l+"uop", sx.Ops...)
+	}
 	var r CmpRange
 	var gtexts []string
 	for g := 0; g < ng; g++ {
 		nc := rapid.IntRange(1, maxCmps).Draw(t, fmt.Sprintf("%sNC%d", l, g))
+		if longCmps && g == 0 {
+			nc = rapid.IntRange(5, 14).Draw(t, l+"NCL")
+		} else if longGroups && nc > 2 {
+			nc = 2
+		}
 		var grp []Cmp
 		var ctexts []string
 		for c := 0; c < nc; c++ {
@@ -160,6 +184,9 @@ func DrawCmpRange(t *rapid.T, e eco.Eco, base, l string, maxGroups, maxCmps int)
 				return CmpRange{}, false
 			}
 			op := Pick(t, cl+"op", sx.Ops...)
+			if (longCmps || longGroups) && uniformOp != "" {
+				op = uniformOp
+			}
 			sp := ""
 			if sx.SpOp && Chance(t, cl+"sp", 1, 6) {
 				sp = " "
@@ -351,6 +378,22 @@ func DrawAnyRange(t *rapid.T, e eco.Eco, base, l string) (RangeInfo, bool) {
 			}
 		}
 		return RangeInfo{Text: base, Conjunctive: true, Kind: "bare"}, true
+	}
+	// now and then a construct written in the range syntax of SOME ecosystem, whatever this one is: almost all are
+	// rejected here today (a discarded case); one that is accepted - today or after a change that teaches the
+	// parser new syntax - is subject to the syntax-agnostic properties (round trip and padding C18, equal versions
+	// have equal membership C20). Its meaning is unknown to the harness, so it is never called conjunctive.
+	if rapid.IntRange(0, 24).Draw(t, l+"transplant") == 13 {
+		b := strings.TrimLeft(base, "=v")
+		nbv := strings.TrimLeft(Neighbor(t, e, base, l+"tn"), "=v")
+		forms := []string{"~" + b, "=" + b + "*", "^" + b, "~>" + b, "~> " + b, "~=" + b, b + ".*", "==" + b + ".*", "=" + b + ".*", "[" + b + "," + nbv + "]", "(" + b + "," + nbv + ")",
+			"[" + b + "],[" + nbv + ",)", "(," + b + "],[" + nbv + ",)", b + " - " + nbv, ">=" + b + " <" + nbv + " || >" + nbv, ">=" + b + " and <" + nbv, b + "+", ">=" + b + ",<" + nbv,
+			"!" + b, "<>" + b, "===" + b, "=~" + b, b + ".x", b + "@stable", ">" + b + " <=" + nbv + " !=" + b}
+		txt := forms[rapid.IntRange(0, len(forms)-1).Draw(t, l+"tf")]
+		if _, err := e.NewRange(txt); err == nil {
+			return RangeInfo{Text: txt, Conjunctive: false, Kind: "transplanted-syntax"}, true
+		}
+		return RangeInfo{}, false
 	}
 	if _, has := Syntax[name]; has && Chance(t, l+"cmp", 3, 5) {
 		r, ok := DrawCmpRange(t, e, base, l+"c", 2, 3)
